@@ -30,13 +30,19 @@ LEVEL_TEXT = (
     "HTTPException, or is covered by an enclosing handler on every call path (real exception lattice), or by a guard idiom, "
     "or by a reviewed role. Guard idioms and roles do not match source text: the operand is identified by data flow "
     "(reaching definitions, tuple/list/dict projections, regex group widths, parameter binding to the call sites on the "
-    "escaping chain, return values of package helpers) and the dominating conditions are compared as canonical atoms with "
+    "escaping chain, return values of package helpers; an int - e.g. the upper bound of a slice - as a union of exact "
+    "sentinels and lower bounds (find: -1 or >= 0; a helper returning -1 / None / an index), the sentinel removed by a "
+    "dominating != / >= / < / is not None / truthiness test, with the path-wise facts below as a second opinion for a "
+    "value unpacked from a helper's result) and the dominating conditions are compared as canonical atoms with "
     "local aliases / boolean flags expanded and a freshness check (no rebinding of a tested name between test and use), "
     "including tests in the caller of a helper and the conditions of enclosing conditional expressions. A reviewed role "
     "(input-model latin-1 text, application flag, abstract method, application's own value, Accept pair, fallback search, "
     "regex-matched number, octal escape, ASCII bytes, range constructor, validated constructor) re-establishes its premise "
     "on every run on the code as it is shaped now; a premise anchor of an unknown shape is ANALYSIS-ERROR, a false premise "
-    "a violation. The range-constructor premise is decided per element: every place that can put an element into the list "
+    "a violation. The form parser's silent-mode premise reads what make_form_data_parser (or a private method it calls) "
+    "hands to FormDataParser(silent=...): keyword, position, or a key of a `**mapping` whose keys are folded (dict display "
+    "/ comprehension / dict(zip()) / fromkeys / update / item stores keyed by a loop over a constant tuple of names / a "
+    "helper that returns the mapping); keys that do not fold are ANALYSIS-ERROR. The range-constructor premise is decided per element: every place that can put an element into the list "
     "handed to the validating constructor (literal, comprehension, append / insert / extend / += / item assignment, alias, "
     "copy, a helper that returns or fills the list) is found by role; for each, all acyclic paths to it are enumerated with "
     "path-wise must-facts (nullness, int-ness, difference bounds x - y <= c closed under transitivity, tuple components, "
@@ -46,8 +52,9 @@ LEVEL_TEXT = (
     "reachable from an "
     "entry point makes progress on every path through its body, decided on the same path-wise facts: back at the head "
     "an assigned int has strictly grown (or fallen), or an assigned text is strictly shorter (slice with a lower bound "
-    ">= 1, partition / split / removeprefix that removed a separator or a non-empty match, match.end() / span() of a pattern "
-    "that cannot match empty at that position), or a reviewed progress maker identified by what it calls was asked for more "
+    ">= 1, partition / split / removeprefix that removed a separator or a non-empty match, match.end() / span() / the length "
+    "of the whole match of a pattern that cannot match empty at that position, find / index from a position >= 0), wherever "
+    "the loop lives (also in a generator helper, with yields between the statements), or a reviewed progress maker identified by what it calls was asked for more "
     "(MultipartDecoder.next_event; a read from the request stream) - and between two requests to such a maker the loop is "
     "left when it is exhausted (the event is NEED_DATA; the read is "
     "empty). (R7.3) the lenient decoders named by the property keep their fallbacks. Not decided: operations outside "
@@ -298,7 +305,7 @@ def _r72(an: A) -> None:
             n += 1
             ok, why = _progress(an, f, w)
             ctx.ob("R7.2", f"{f.qualname}: `while {norm(w.test)[:40]}` makes progress", ok, why, f, w, f"while {norm(w.test)[:60]}")
-    ctx.floor("R7.2", "while loops reachable from entry points", n, 3)
+    ctx.floor("R7.2", "while loops reachable from entry points", n, 1)
 
 
 def _maker_kind(an: A, f: FuncInfo, c: ast.Call) -> str | None:
